@@ -250,7 +250,15 @@ class FunctionTranslator:
                 # a op1 b op2 c  is by definition  (a op1 b) and (b op2 c)  with b evaluated once (language reference
                 # 6.10): rendered as that EAnd chain when every middle operand is a plain name or constant (evaluating
                 # it twice is then the same as once); anything else stays unsupported
-                if not all(isinstance(m, (ast.Name, ast.Constant)) for m in e.comparators[:-1]):
+                # (also: an attribute / item read chain over names and constants, `x.shape[0]`: such reads have no effect
+                # in the subset and a unit's [ext] gives "$attr." / "$getitem" none, so twice is again the same as once)
+                def read_only(m):
+                    while isinstance(m, (ast.Attribute, ast.Subscript)):
+                        if isinstance(m, ast.Subscript) and not isinstance(m.slice, (ast.Name, ast.Constant)):
+                            return False
+                        m = m.value
+                    return isinstance(m, (ast.Name, ast.Constant))
+                if not all(read_only(m) for m in e.comparators[:-1]):
                     raise Unsupported(f"{self.where}: chained comparison at line {e.lineno}")
                 operands = [e.left] + list(e.comparators)
                 parts = [f"(ECmp {CMPOPS[type(op)]} {self.expr(l)} {self.expr(r)})"
@@ -605,16 +613,54 @@ class FunctionTranslator:
             return f"({con} {cstr(x)} {self.expr(s.iter)}\n {body})"
         if isinstance(s.target, ast.Tuple) and all(isinstance(el, ast.Name) for el in s.target.elts):
             t = self.fresh()
+            back = None
             for el in s.target.elts:
                 if self.mutates(s.body, el.id):
-                    raise Unsupported(f"{self.where}: unpacked loop variable mutated at line {s.lineno}")
+                    # for i, x in enumerate(P): ... x[k] = v ...   (x IS the element P[i]: a tensor row is a view, a list
+                    # element the object itself) -> the same loop, each element written back: P[$t[0]] = x after the body
+                    back = self.enumerate_writeback(s, t, cont)    # Unsupported unless the idiom's side conditions hold
             pre = [f"(SAssign [TName {cstr(el.id)}] (ESub (EName {cstr(t)}) (EConst (VInt ({i})%Z))))"
                    for i, el in enumerate(s.target.elts)]
-            acc = body
+            acc = body if back is None else f"(SSeq {body} {back})"
             for p in reversed(pre):
                 acc = f"(SSeq {p} {acc})"
             return f"({con} {cstr(t)} {self.expr(s.iter)}\n {acc})"
         raise Unsupported(f"{self.where}: for target at line {s.lineno}")
+
+    def enumerate_writeback(self, s, t, cont):
+        """`for i, x in enumerate(P): body` where body mutates x in place (x[k] = v): the statement `P[$t[0]] = x` that
+        renders Python's reference semantics (x is the element P[i]) when run after the body.  Side conditions, else
+        Unsupported: exactly two target names and only the second is mutated; the iterable is the builtin enumerate of ONE
+        plain local name P; the body neither mentions P nor rebinds x (so P[i] is reachable only through x while the body
+        runs); x does not occur outside the loop (no alias survives it); no `continue` of its own (the write-back would be
+        skipped); the loop is not inside a `try` of this function (a handler would see P before the write-back)."""
+        where = f"{self.where}: loop over enumerate() at line {s.lineno}"
+        if len(s.target.elts) != 2 or self.mutates(s.body, s.target.elts[0].id):
+            raise Unsupported(f"{where}: only the second of two loop variables may be mutated")
+        x = s.target.elts[1].id
+        it = s.iter
+        if not (isinstance(it, ast.Call) and isinstance(it.func, ast.Name) and it.func.id == "enumerate"
+                and "enumerate" not in self.locals and len(it.args) == 1 and not it.keywords
+                and isinstance(it.args[0], ast.Name) and it.args[0].id in self.locals):
+            raise Unsupported(f"{where}: loop variable mutated but the iterable is not enumerate(<local name>)")
+        p = it.args[0].id
+        if cont:
+            raise Unsupported(f"{where}: continue in a loop that writes its variable back")
+        inside = set()
+        for b in s.body:
+            for n in ast.walk(b):
+                inside.add(id(n))
+                if isinstance(n, ast.Name) and n.id == p:
+                    raise Unsupported(f"{where}: '{p}' is used in the body while '{x}' aliases its elements")
+                if isinstance(n, ast.Name) and n.id == x and isinstance(n.ctx, (ast.Store, ast.Del)):
+                    raise Unsupported(f"{where}: '{x}' is rebound in the body")
+        for n in ast.walk(self.fn):
+            if isinstance(n, ast.Name) and n.id == x and id(n) not in inside and n is not s.target.elts[1]:
+                raise Unsupported(f"{where}: '{x}' is used outside the loop")
+            if isinstance(n, ast.Try) and any(m is s for m in ast.walk(n)):
+                raise Unsupported(f"{where}: the loop is inside a try statement")
+        return (f"(SAssign [TSub (EName {cstr(p)}) (ESub (EName {cstr(t)}) (EConst (VInt (0)%Z)))] "
+                f"(EName {cstr(x)}))")
 
     def defaults(self):
         a = self.fn.args
